@@ -27,14 +27,14 @@ def showState (c : Cfg) (s : State) : String :=
   s!" | {s.pstack} {s.parena} {pb} {if s.threadlock then 1 else 0} {s.maxStack} {s.maxArena}"
 
 def showRes (c : Cfg) : Res → String
-  | .ptr a => s!"ptr {sub64 a c.base}"
+  | .ptr a => if a = 0 then "null" else s!"ptr {sub64 a c.base}"   -- (void*)0 is NULL
   | .null => "null"
   | .error => "error"
   | .unit => "ok"
   | .undef => "undef"
 
 def showJob (c : Cfg) : Res → String
-  | .ptr a => toString (sub64 a c.base)
+  | .ptr a => if a = 0 then "null" else toString (sub64 a c.base)
   | .null => "null"
   | .error => "error"
   | _ => "undef"
@@ -44,8 +44,9 @@ def insertSorted (x : Nat) : List Nat → List Nat
   | y :: ys => if x ≤ y then x :: y :: ys else y :: insertSorted x ys
 
 def showJobsSorted (c : Cfg) (rs : List Res) : String :=
-  let ptrs := (rs.filterMap (fun r => match r with | .ptr a => some (sub64 a c.base) | _ => none)).foldr insertSorted []
-  let nn := (rs.filter (· == .null)).length
+  let ptrs := (rs.filterMap (fun r => match r with
+    | .ptr a => if a = 0 then none else some (sub64 a c.base) | _ => none)).foldr insertSorted []
+  let nn := (rs.filter (fun r => r == .null || r == .ptr 0)).length
   let ne := (rs.filter (· == .error)).length
   String.join (ptrs.map (fun p => " " ++ toString p)) ++ String.join (List.replicate nn " null")
     ++ String.join (List.replicate ne " error")
